@@ -37,27 +37,8 @@ pub open spec fn asset_eq(a: AssetInfo, b: AssetInfo) -> bool {
 }
 pub open spec fn list_has(l: Seq<AssetInfo>, t: AssetInfo) -> bool { exists|i: int| 0 <= i < l.len() && asset_eq(#[trigger] l[i], t) }
 #[verifier::external_body]
-pub fn vec_contains_asset(v: &Vec<AssetInfo>, x: &AssetInfo) -> (r: bool)
-    ensures r == list_has(v@, *x),
-{ unimplemented!() }
-#[verifier::external_body]
-pub fn vec_prefix_asset(v: &Vec<AssetInfo>, take: usize) -> (r: Vec<AssetInfo>)
-    ensures take <= v@.len(), r@ == v@.subrange(0, take as int),
-{ unimplemented!() }
-#[verifier::external_body]
-pub fn min_usize(a: usize, b: usize) -> (r: usize)
-    ensures r == (if a < b { a } else { b }),
-{ unimplemented!() }
-#[verifier::external_body]
 pub fn vec_position_of_asset(v: &Vec<AssetInfo>, x: &AssetInfo) -> (r: usize)
     ensures r < v@.len(), asset_eq(v@[r as int], *x), forall|j: int| 0 <= j < r ==> !asset_eq(v@[j], *x),
-{ unimplemented!() }
-#[verifier::external_body]
-pub fn vec_swap_remove_asset(v: &mut Vec<AssetInfo>, index: usize) -> (r: AssetInfo)
-    ensures
-        index < old(v)@.len(), r == old(v)@[index as int],
-        final(v)@.len() == old(v)@.len() - 1,
-        forall|j: int| 0 <= j < final(v)@.len() ==> final(v)@[j] == (if j == index { old(v)@[old(v)@.len() - 1] } else { old(v)@[j] }),
 { unimplemented!() }
 
 pub struct Admin {}
